@@ -212,7 +212,7 @@ func runC03(e *emitter, idx int, c *OptCase) {
 	psx := p.Sx()
 	psx.List[0] = I(n)
 	csx := L(psx, c.costSx())
-	meta := Meta{Class: p.Class + "/" + p.Front + "/" + c.Entry, Desc: c, Extra: map[string]interface{}{"negcost": c.hasNegCost(), "cp": c.CP}}
+	meta := Meta{Class: p.Class + "/" + p.Front + "/" + c.Entry, Desc: c, Extra: map[string]interface{}{"negcost": c.hasNegCost(), "cp": c.CP, "nonclausal": p.nonClausal()}}
 	e.begin(idx, csx, meta)
 	verdict, weight := 0, 0
 	var model []bool
